@@ -77,7 +77,7 @@ def scenarios(tier, seed):
         big = c["k"] * c["bc"] >= 256
         base = dict(c, seed=seed * 1009 + ci)
         npairs = n1 * (n1 - 1) // 2
-        # all singles of all lanes in ONE trace (the "at most one uncounted position" clause needs them together)
+        # all single positions of a lane stay in ONE trace (the "at most one uncounted position per lane" clause needs them together)
         S = dict(kind="S", words=(4 if thorough else (2 if big else 3)))
         W = dict(kind="W", nrandom=(60 if thorough else 20))
         pw = 2 if thorough else 1
